@@ -273,13 +273,24 @@ Separator(T, cx, i) ==
 \*    followed by a statement; one after a print-list comma stays a newline
 \*  - any other original newline is between two tokens of one construct and
 \*    may be replaced by blanks
+\* GapClass names the case; ClassKinds gives its kinds.
+GapClass(T, cx, nl, i) ==
+  LET special == AfterPrintReturn(T, i) \/ PrintComma(T, cx, i) IN
+  IF ~nl THEN (IF special THEN "plain-after-print" ELSE "plain")
+  ELSE IF special THEN (IF AfterPrintReturn(T, i) /\ StmtFollows(T, cx, i) THEN "nl-bare-print-sep" ELSE "nl-after-print")
+  ELSE IF Separator(T, cx, i) THEN (IF T[i].tag = "}" THEN "nl-sep-after-brace" ELSE "nl-sep")
+  ELSE "nl-inside"
+GapClasses == {"plain-after-print", "plain", "nl-bare-print-sep", "nl-after-print", "nl-sep-after-brace", "nl-sep", "nl-inside"}
+ClassKinds(c) ==
+  CASE c = "plain-after-print" -> WsKinds
+    [] c = "plain" -> WsKinds \cup NlKinds
+    [] c = "nl-bare-print-sep" -> NlKinds \cup {"semi"}
+    [] c = "nl-after-print" -> NlKinds
+    [] c = "nl-sep-after-brace" -> NlKinds
+    [] c = "nl-sep" -> NlKinds \cup {"semi"}
+    [] c = "nl-inside" -> WsKinds \cup NlKinds
 Permitted(T, cx, nl, i) ==
-  LET special == AfterPrintReturn(T, i) \/ PrintComma(T, cx, i)
-      raw == IF ~nl THEN (IF special THEN WsKinds ELSE WsKinds \cup NlKinds)
-             ELSE IF special THEN NlKinds \cup (IF AfterPrintReturn(T, i) /\ StmtFollows(T, cx, i) THEN {"semi"} ELSE {})
-             ELSE IF Separator(T, cx, i) THEN NlKinds \cup (IF T[i].tag = "}" THEN {} ELSE {"semi"})
-             ELSE WsKinds \cup NlKinds
-  IN (raw \ (IF NeedsSpace(T[i], T[i+1]) THEN {"none"} ELSE {}))
+  (ClassKinds(GapClass(T, cx, nl, i)) \ (IF NeedsSpace(T[i], T[i+1]) THEN {"none"} ELSE {}))
          \ (IF T[i+1].tag = ";" THEN NlKinds ELSE {})
 LeadKinds == WsKinds \cup NlKinds
 TrailKinds == WsKinds \cup NlKinds \cup {"cmteof"}
